@@ -58,6 +58,9 @@ def rel_angles(tier, seed):
 
 def starts3(tier):
     out = [('I', np.eye(3)), ('Rx(0.3)Ry(-0.7)', ref.rotx(0.3) @ ref.roty(-0.7)), ('rod(2.5)', ref.rodrigues((1, 2, 3), 2.5))]
+    # starts just short of a half turn about +z: a relative rotation about the same axis carries the end pose across the half turn, so
+    # that the quaternions the matrix interpolator extracts lie in opposite hemispheres although the poses are close
+    out += [('Rz(pi-0.05)', ref.rotz(PI - 0.05)), ('Rz(pi-1e-4)', ref.rotz(PI - 1e-4))]
     if tier != 'quick':
         out.append(('rod(-1.9)', ref.rodrigues((-2, 1, 0.5), -1.9)))
     return out
